@@ -97,6 +97,7 @@ func runPrioReal(sc PrioRealScenario) *prioRealResult {
 		n       int
 		written atomic.Int64
 		removed atomic.Bool
+		takenAt atomic.Int64  // items the discipline had taken when the removal / replacement returned
 		quit    chan struct{} // closed when the channel was removed / replaced: its producer stops
 	}
 	var chans []*chanInfo
@@ -273,6 +274,7 @@ func runPrioReal(sc PrioRealScenario) *prioRealResult {
 				old := current[c.P]
 				addInput(ci.ch, c.P)
 				if old != nil {
+					old.takenAt.Store(old.written.Load() - int64(len(old.ch)))
 					old.removed.Store(true)
 					close(old.quit)
 				}
@@ -285,6 +287,7 @@ func runPrioReal(sc PrioRealScenario) *prioRealResult {
 					continue
 				}
 				removeInput(c.P)
+				current[c.P].takenAt.Store(current[c.P].written.Load() - int64(len(current[c.P].ch)))
 				current[c.P].removed.Store(true)
 				close(current[c.P].quit)
 				delete(current, c.P)
@@ -387,6 +390,10 @@ wait:
 			if r.it.Seq >= w || r.it.P != ci.p {
 				fail("C02", "not-written-real", "priority %d channel #%d: delivered item %+v was never written (%d written)", ci.p, id, r.it, w)
 			}
+		}
+		if ci.removed.Load() && int64(len(rs)) > ci.takenAt.Load()+1 {
+			// +1: a producer send may have completed before its counter was updated
+			fail("C17", "read-after-remove-real", "priority %d channel #%d: %d items were delivered although only %d (+1 in progress) had been taken out of it when RemoveInput / the replacing AddInput returned", ci.p, id, len(rs), ci.takenAt.Load())
 		}
 		if !res.Stopped && !ci.removed.Load() && len(rs) != w {
 			fail("C02", "lost-real", "priority %d channel #%d: %d items written before the close but %d delivered at normal termination", ci.p, id, w, len(rs))
